@@ -70,7 +70,22 @@ Proof.
     + destruct a, b; cbn; intros H; inversion H; subst. apply B_logic; reflexivity.
     + unfold bin_res. destruct (is_index b) eqn:Hb; [| intros H; discriminate H].
       destruct a; intros H; inversion H; subst; [apply B_index_text | apply B_index_list]; auto.
+    + unfold bin_res. destruct (concat_is_list a b) eqn:Ec.
+      * destruct (ty_eqb (lelem a) (lelem b)) eqn:E; intros H; inversion H; subst. apply ty_eqb_eq in E. apply B_concat_list; auto.
+      * destruct (textish a) eqn:Ha, (textish b) eqn:Hb; intros H; inversion H; subst. apply B_concat_text; auto.
+        unfold concat_is_list in Ec. destruct a; try discriminate Ha; destruct b; try discriminate Hb; cbn in Ec; auto; discriminate Ec.
+    + unfold bin_res. destruct (seqlike a) eqn:Ha, (is_index b) eqn:Hb; intros H; inversion H; subst. apply B_slice; auto.
+    + unfold bin_res. destruct (seqlike a) eqn:Ha, (is_index b) eqn:Hb; intros H; inversion H; subst. apply B_slice; auto.
   - intros H; inversion H; subst;
+      try match goal with
+          | Hx : textish ?a = true, Hy : textish ?b = true |- _ =>
+              destruct a; try discriminate Hx; destruct b; try discriminate Hy; cbn; auto;
+              match goal with Hd : _ \/ _ |- _ => destruct Hd as [Hd | Hd]; discriminate Hd end
+          | Hx : lelem ?a = lelem ?b, Hy : concat_is_list ?a ?b = true |- _ =>
+              unfold bin_res; rewrite Hy, Hx, ty_eqb_refl; reflexivity
+          | Hx : is_slice1 ?o = true, Hy : seqlike ?a = true, Hz : is_index ?i = true |- _ =>
+              destruct o; try discriminate Hx; unfold bin_res; rewrite Hy, Hz; reflexivity
+          end;
       repeat match goal with
              | Hx : is_arith ?o = true |- _ => destruct o; try discriminate Hx; clear Hx
              | Hx : is_cmp ?o = true |- _ => destruct o; try discriminate Hx; clear Hx
@@ -132,6 +147,15 @@ Proof.
   - intros f a IH t H; cbn in H. destruct (assoc f F) as [[ps [r|]]|] eqn:E; try discriminate H.
     destruct (args_chk M F G a ps) eqn:Ea; inversion H; subst.
     eapply T_call; eauto.
+  - intros l IHl i IHi j IHj t H; cbn in H.
+    destruct (type_of M F G l) as [a|] eqn:El; [| discriminate H].
+    destruct (type_of M F G i) as [ti|] eqn:Ei; [| discriminate H].
+    destruct (type_of M F G j) as [tj|] eqn:Ej; [| discriminate H].
+    destruct (seqlike a) eqn:Ha; [| discriminate H]. destruct (is_index ti) eqn:Hi; [| discriminate H].
+    destruct (is_index tj) eqn:Hj; inversion H; subst. eapply T_slice; eauto.
+  - intros e IHe a IHa t H; cbn in H. destruct (type_of M F G e) as [t0|] eqn:Ee; [| discriminate H].
+    destruct (is_listb t0) eqn:Hl; [discriminate H |]. cbn in H.
+    destruct (args_chk M F G a (repeat (t0, false) (alen a))) eqn:Ea; inversion H; subst. apply T_list; auto.
   - intros ps H; destruct ps; [constructor | discriminate H].
   - intros e IHe a IHa ps H. destruct ps as [| [t [|]] ps]; cbn in H; try discriminate H.
     + destruct e; try discriminate H. destruct (lookup G x) as [[| | |]|] eqn:E; try discriminate H.
@@ -154,6 +178,8 @@ Proof.
   - rewrite H0, H1. apply cast_okb_ok in H2; rewrite H2; reflexivity.
   - rewrite H0, H1; reflexivity.
   - rewrite H, H1; reflexivity.
+  - rewrite H0, H2, H4, H5, H6, H7; reflexivity.
+  - rewrite H0, H1, H3; reflexivity.
   - reflexivity.
   - rewrite H0, ty_eqb_refl, H2; reflexivity.
   - rewrite H, ty_eqb_refl, H1; reflexivity.
@@ -195,6 +221,23 @@ Proof.
   - split; [intros H; discriminate H |]. intros [t1 [H1 _]]. apply type_of_iff in H1; congruence.
 Qed.
 
+Lemma indexb_expr_iff : forall M F G e,
+  indexb_expr M F G e = true <-> exists t, has_type M F G e t /\ is_index t = true.
+Proof.
+  intros; unfold indexb_expr. destruct (type_of M F G e) eqn:E.
+  - split.
+    + intros H; exists t; split; auto. apply type_of_iff; auto.
+    + intros [t1 [H1 H2]]. apply type_of_iff in H1. congruence.
+  - split; [intros H; discriminate H |]. intros [t1 [H1 _]]. apply type_of_iff in H1; congruence.
+Qed.
+
+Lemma iter_okb_iff : forall te t, iter_okb te t = true <-> iter_ok te t.
+Proof.
+  intros te t; unfold iter_okb, iter_ok; split.
+  - destruct te; try (intros H; discriminate H); intros H; apply ty_eqb_eq in H; subst; auto.
+  - intros [-> | [-> ->]]; cbn; auto using ty_eqb_refl.
+Qed.
+
 Lemma genderb_iff : forall M t a, genderb M t a = true <-> gender M t = Some a.
 Proof.
   intros; unfold genderb. destruct (gender M t).
@@ -222,6 +265,16 @@ Proof.
     destruct (lookup G x) as [[| | |]|] eqn:E; try discriminate H.
     destruct (assign_chk M F G e t) eqn:E3; inversion H; subst.
     apply assign_chk_iff in E3 as [t0 [Ht Ha]]. eapply S_assign; eauto.
+  - intros x i e G d r G' H; cbn in H.
+    destruct (lookup G x) as [[tx| | |]|] eqn:E; try discriminate H.
+    destruct (seqlike tx) eqn:E1; [| discriminate H]. destruct (indexb_expr M F G i) eqn:E2; [| discriminate H].
+    destruct (assign_chk M F G e (selem tx)) eqn:E3; inversion H; subst.
+    apply indexb_expr_iff in E2 as [ti [Hti Hi]]. apply assign_chk_iff in E3 as [t0 [Ht Ha]]. eapply S_assign_idx; eauto.
+  - intros f x e G d r G' H; cbn in H.
+    destruct (lookup G x) as [[[| | | | | | |s]| | |]|] eqn:E; try discriminate H.
+    destruct (field_of M s f) as [[[|] tf]|] eqn:Ef; try discriminate H.
+    destruct (assign_chk M F G e tf) eqn:E3; inversion H; subst.
+    apply assign_chk_iff in E3 as [t0 [Ht Ha]]. eapply S_assign_field; eauto.
   - intros c th IHth el IHel G d r G' H; cbn in H.
     destruct (has_typeb M F G c TBool) eqn:E1; [| discriminate H].
     destruct (block_chk M F (push G) d r th) eqn:E2; [| discriminate H].
@@ -245,6 +298,21 @@ Proof.
     apply genderb_iff in E2.
     eapply S_for; eauto.
     destruct step; cbn; auto. apply numericb_expr_iff; auto.
+  - intros a t x e b IHb G d r G' H; cbn in H.
+    destruct (ty_ok G t) eqn:E1; [| discriminate H]. destruct (genderb M t a) eqn:E2; [| discriminate H].
+    destruct (type_of M F G e) as [te|] eqn:E3; [| discriminate H]. cbn in H.
+    destruct (iter_okb te t) eqn:E4; [| discriminate H].
+    change (bind (push G) x (BVar t)) with ([(x, BVar t)] :: G) in *.
+    destruct (block_chk M F ([(x, BVar t)] :: G) (S d) r b) eqn:E5; inversion H; subst.
+    apply genderb_iff in E2. apply iter_okb_iff in E4. apply type_of_iff in E3. eapply S_foreach; eauto.
+  - intros b IHb n G d r G' H; cbn in H.
+    destruct (block_chk M F (push G) (S d) r b) eqn:E1; [| discriminate H].
+    destruct (indexb_expr M F G n) eqn:E2; inversion H; subst.
+    apply indexb_expr_iff in E2 as [tn [Htn Hi]]. eapply S_repeat; eauto.
+  - intros b IHb c G d r G' H; cbn in H.
+    destruct (block_chk M F (push G) (S d) r b) eqn:E1; [| discriminate H].
+    destruct (has_typeb M F G c TBool) eqn:E2; inversion H; subst.
+    apply has_typeb_iff in E2. eapply S_dowhile; eauto.
   - intros G d r G' H; cbn in H. destruct d; inversion H; subst. constructor.
   - intros G d r G' H; cbn in H. destruct d; inversion H; subst. constructor.
   - intros [e|] G d r G' H; cbn in H.
@@ -272,6 +340,9 @@ Proof.
     assert (E : assign_chk M F G e t = true) by (apply assign_chk_iff; eauto). rewrite E; reflexivity.
   - rewrite H; reflexivity.
   - rewrite H. assert (E : assign_chk M F G e t = true) by (apply assign_chk_iff; eauto). rewrite E; reflexivity.
+  - rewrite H, H0. assert (E : indexb_expr M F G i = true) by (apply indexb_expr_iff; eauto). rewrite E.
+    assert (E2 : assign_chk M F G e (selem tx) = true) by (apply assign_chk_iff; eauto). rewrite E2; reflexivity.
+  - rewrite H, H0. assert (E2 : assign_chk M F G e tf = true) by (apply assign_chk_iff; eauto). rewrite E2; reflexivity.
   - apply has_typeb_iff in H; rewrite H, H1, H3; reflexivity.
   - apply has_typeb_iff in H; rewrite H, H1; reflexivity.
   - rewrite H, H1. apply genderb_iff in H0; rewrite H0.
@@ -280,6 +351,10 @@ Proof.
     assert (E3 : match step with Some e => numericb_expr M F G e | None => true end = true).
     { destruct step; auto. apply numericb_expr_iff; auto. }
     cbn in *. rewrite E3, H8; reflexivity.
+  - rewrite H. apply genderb_iff in H0; rewrite H0. apply type_of_iff in H1; rewrite H1.
+    apply iter_okb_iff in H2. cbn in *. rewrite H2, H4; reflexivity.
+  - rewrite H0. assert (E : indexb_expr M F G n = true) by (apply indexb_expr_iff; eauto). rewrite E; reflexivity.
+  - rewrite H0. apply has_typeb_iff in H1; rewrite H1; reflexivity.
   - reflexivity.
   - reflexivity.
   - apply has_typeb_iff in H; rewrite H; reflexivity.
